@@ -149,7 +149,7 @@ R.contract("Node.add_application",
                     ("registered", "app in items(self.applications) and app._node == self")],
            modifies=["list:self.applications", "dict:self._peer_routes", "*dict:Dict[Any:routekey,List[Peer]]", "*list:Peer",
                      "app._node", "*StoppableThread.started"],
-           props=["C08"])
+           props=["C08", "C10"])
 _KEEP = ("implies(old(r2 in self._peer_routes and k2 in self._peer_routes[r2] and p2 in self._peer_routes[r2][k2]), "
          "r2 in self._peer_routes and k2 in self._peer_routes[r2] and p2 in self._peer_routes[r2][k2])")
 R.loop("Node.add_application", 0,
